@@ -49,6 +49,9 @@ meta={"property":id,"slot":slot,"title":am.get("title"),"what_breaks":am.get("wh
  "check_run":{"check":chk,"via":"tools/mutant.py (go build -overlay of the patched files; /repo untouched)","quick_exit":int(qe),"quick_violation":qv,
    "thorough_exit":(None if te=='-' else int(te)),"thorough_violation":tv},
  "detected": ("quick" if qe=='1' else ("thorough" if te=='1' else "no"))}
+try:
+    meta["detected_at_first_evaluation"]=json.load(open('/verif/seeded/first_evaluation.json')).get('%s-%s'%(id,slot))
+except Exception: pass
 json.dump(meta,open(dst+'/meta.json','w'),indent=1)
 print("detected:",meta["detected"])
 PY
